@@ -346,6 +346,11 @@ def run_numjac(task):
         Config.config.update(defaults)
 
 
+def run_c01_seq(task):
+    """run_c01 on several inputs one after another in this interpreter"""
+    return {"outcome": "Ok", "results": [run_c01(sub) for sub in task["subs"]]}
+
+
 def run_numjac_seq(task):
     """several integrators one after another in ONE interpreter (e.g. the same system with its entries listed in
     another order): run_numjac on each; reports the worst"""
@@ -500,7 +505,8 @@ def _flow_probe(indict, ana, seed):
                     g = mpmath.mpf(str(gre))
                 except Exception:
                     return {"worst": 1.0, "detail": "update of %s is not a real number at h=%s: %s" % (av[i], hv, got[i])}
-                err = abs(g - exp[i]) / (1 + abs(exp[i]))
+                # constants are printed with 15 digits; inside an exponent their error is amplified by |M| h
+                err = abs(g - exp[i]) / (1 + abs(exp[i])) / (1 + mpmath.mnorm(Mn, 'inf') * hv)
                 if err > worst:
                     worst = float(err)
                     detail = "h=%s variable %s: update gives %s, exact flow %s (params %s, state %s)" % (hv, av[i], mpmath.nstr(g, 15), mpmath.nstr(exp[i], 15), {str(k): float(v) for k, v in pv.items()}, [float(v) for v in xv])
@@ -510,7 +516,7 @@ def _flow_probe(indict, ana, seed):
         c2 = step(xv, sympy.Float(1.3, 40), pv)
         for i in range(len(av)):
             b2r, c2r = mpmath.mpf(str(b2[i].as_real_imag()[0])), mpmath.mpf(str(c2[i].as_real_imag()[0]))
-            err = abs(b2r - c2r) / (1 + abs(c2r))
+            err = abs(b2r - c2r) / (1 + abs(c2r)) / (1 + mpmath.mnorm(Mn, 'inf') * 1.3)
             if err > worst:
                 worst = float(err)
                 detail = "two-step law violated for %s: step(0.4) then step(0.9) = %s, step(1.3) = %s" % (av[i], b2[i], c2[i])
